@@ -10,6 +10,8 @@ import (
 	"os"
 	"runtime"
 	"runtime/debug"
+	"runtime/pprof"
+	"time"
 
 	"github.com/maypok86/otter/v2/internal/verif/harness"
 )
@@ -21,7 +23,7 @@ func main() {
 	procs := flag.Int("procs", 1, "GOMAXPROCS")
 	flag.Parse()
 	runtime.GOMAXPROCS(*procs)
-	debug.SetGCPercent(400)
+	debug.SetGCPercent(200)
 	if *list != "" {
 		jobs := harness.Plan(*list, *tier)
 		b, _ := json.Marshal(jobs)
@@ -39,7 +41,44 @@ func main() {
 		fmt.Fprintln(os.Stderr, "bad job:", err)
 		os.Exit(2)
 	}
+	go watchdog(&job)
 	res := harness.RunJob(&job)
+	if pf := os.Getenv("VERIF_MEMPROF"); pf != "" {
+		f, _ := os.Create(pf)
+		runtime.GC()
+		pprof.Lookup("heap").WriteTo(f, 0)
+		f.Close()
+		f2, _ := os.Create(pf + ".goroutines")
+		pprof.Lookup("goroutine").WriteTo(f2, 1)
+		f2.Close()
+	}
 	b, _ := json.Marshal(res)
 	fmt.Println(string(b))
+}
+
+// watchdog: one execution of a closed harness takes microseconds to milliseconds. If no execution
+// completes for 60 s the code under check is spinning outside the scheduler's control (native
+// set-up / oracle phase): report it as a hang instead of dying on a timeout or on memory.
+func watchdog(job *harness.Job) {
+	last := harness.Progress.Load()
+	idle := 0
+	for {
+		time.Sleep(time.Second)
+		cur := harness.Progress.Load()
+		if cur != last {
+			last, idle = cur, 0
+			continue
+		}
+		idle++
+		if idle < 60 {
+			continue
+		}
+		buf := make([]byte, 1<<16)
+		n := runtime.Stack(buf, true)
+		res := &harness.Result{Job: job, Engine: "watchdog", ByCost: map[string]int{}, ViolCount: map[string]int{"hang/native-phase": 1}}
+		res.Violations = []harness.Violation{{Discrepancy: harness.Discrepancy{Kind: "hang", Subject: "native-phase", Detail: "no execution completed for 60 s: an operation does not return (outside the controlled scheduler)\n" + harness.OtterFrames(string(buf[:n]))}, Scenario: job.Scenario, Params: job.Params}}
+		b, _ := json.Marshal(res)
+		fmt.Println(string(b))
+		os.Exit(0)
+	}
 }
